@@ -258,6 +258,7 @@ func main() {
 	hbRuns := info.QuickHB
 	if tier == "thorough" {
 		runs, hbRuns = info.Thorough, info.ThoroughHB
+		workerLimit = 5 * time.Hour
 	}
 	if runsOverride >= 0 {
 		runs = runsOverride
@@ -482,6 +483,8 @@ func loadFindings() []finding {
 	return f.Findings
 }
 
+var workerLimit = 20 * time.Minute
+
 var raceStackRe = regexp.MustCompile(`(?s)WARNING: DATA RACE.*?==================`)
 
 // fanOut runs n simulated runs over the workers and returns their reports.
@@ -528,7 +531,18 @@ func fanOut(worker, tmp, id string, seed uint64, n, workers int, hb bool) ([]*re
 			var stderr bytes.Buffer
 			cmd.Stderr = &stderr
 			cmd.Stdout = &stderr
-			err := cmd.Run()
+			err := cmd.Start()
+			if err == nil {
+				// hard limit per worker: never hang the check
+				done := make(chan error, 1)
+				go func() { done <- cmd.Wait() }()
+				select {
+				case err = <-done:
+				case <-time.After(workerLimit):
+					cmd.Process.Kill()
+					err = fmt.Errorf("worker exceeded the hard limit of %v and was killed: %v", workerLimit, <-done)
+				}
+			}
 			mu.Lock()
 			defer mu.Unlock()
 			b, rerr := os.ReadFile(out)
